@@ -150,6 +150,24 @@ fn worker(n: usize, shared: Arc<crate::mon_c12::Fixture>, sets: &mut Sets, st: &
                 }
             }
         }
+        // re-encapsulation, twice in a row on the same input (nothing else of this thread in
+        // between): both outputs must be fresh
+        if i % 8 == 0 {
+            if let Out::Ok((_, e)) = call(|| fx.cc.encaps(&fx.mpk, ap)) {
+                for _ in 0..2 {
+                    if let Out::Ok((s, x)) = call(|| fx.cc.recaps(&fx.msk, &fx.mpk, &e)) {
+                        st.bump("recaps_calls");
+                        sets.put("encapsulated secret", real::secret_bytes(&s).to_vec());
+                        if let Some(Ok(w)) = ser(&x).ok().map(|b| WXenc::parse(&b)) {
+                            sets.put("tag", w.tag.clone());
+                            for t in &w.traps {
+                                sets.put("trap", t.clone());
+                            }
+                        }
+                    }
+                }
+            }
+        }
         // user ids (less often: key generation is heavier)
         if i % 4 == 0 {
             if let Out::Ok(u) = call(|| fx.cc.generate_user_secret_key(&mut fx.msk, ap)) {
@@ -210,6 +228,114 @@ fn worker(n: usize, shared: Arc<crate::mon_c12::Fixture>, sets: &mut Sets, st: &
     }
 }
 
+/// Single-threaded: every ordered pair (A, B) of randomness-consuming calls, back to back on one
+/// instance. Catches a call that does not advance the shared generator (its successor would repeat
+/// its randomness), which a long mixed run can mask.
+fn sequential_pairs(sets: &mut Sets, st: &mut Stats) {
+    let Some(fx) = fixture() else { return };
+    let Some(mut msk) = ser(&fx.msk).ok().and_then(|b| de::<MasterSecretKey>(&b).ok()) else { return };
+    let ap = fx.classic_ap.clone();
+    let aph = fx.hybrid_ap.clone();
+    let Out::Ok((_, base)) = call(|| fx.cc.encaps(&fx.mpk, &aph)) else { return };
+    let names = ["encaps", "recaps", "pke-encrypt", "header-generate", "keygen", "rekey", "refresh", "setup"];
+    let mut usk = fx.keys[0].1.clone();
+    let mut mpk = call(|| msk.mpk()).ok().unwrap();
+    let mut do_op = |k: usize, sets: &mut Sets, msk: &mut MasterSecretKey, usk: &mut UserSecretKey, mpk: &mut MasterPublicKey| {
+        match k {
+            0 => {
+                if let Out::Ok((s, x)) = call(|| fx.cc.encaps(mpk, &aph)) {
+                    sets.put("encapsulated secret", real::secret_bytes(&s).to_vec());
+                    if let Some(Ok(w)) = ser(&x).ok().map(|b| WXenc::parse(&b)) {
+                        sets.put("tag", w.tag.clone());
+                        for (ct, f) in &w.encs {
+                            sets.put("masked seed F", f.clone());
+                            if !ct.is_empty() {
+                                sets.put("ML-KEM ciphertext", ct.clone());
+                            }
+                        }
+                    }
+                }
+            }
+            1 => {
+                if let Out::Ok((s, x)) = call(|| fx.cc.recaps(msk, mpk, &base)) {
+                    sets.put("encapsulated secret", real::secret_bytes(&s).to_vec());
+                    if let Some(Ok(w)) = ser(&x).ok().map(|b| WXenc::parse(&b)) {
+                        sets.put("tag", w.tag.clone());
+                        for (ct, f) in &w.encs {
+                            sets.put("masked seed F", f.clone());
+                            if !ct.is_empty() {
+                                sets.put("ML-KEM ciphertext", ct.clone());
+                            }
+                        }
+                    }
+                }
+            }
+            2 => {
+                if let Out::Ok((e, c)) = call(|| <Covercrypt as PkeAc<{ Aes256Gcm::KEY_LENGTH }, Aes256Gcm>>::encrypt(&fx.cc, mpk, &aph, b"p")) {
+                    if c.len() >= 12 {
+                        sets.put("PKE nonce", c[..12].to_vec());
+                    }
+                    if let Some(Ok(w)) = ser(&e).ok().map(|b| WXenc::parse(&b)) {
+                        sets.put("tag", w.tag.clone());
+                    }
+                }
+            }
+            3 => {
+                if let Out::Ok((s, h)) = call(|| EncryptedHeader::generate(&fx.cc, mpk, &aph, Some(b"m"), None)) {
+                    sets.put("header secret", real::secret_bytes(&s).to_vec());
+                    if let Some(Ok(w)) = ser(&h).ok().map(|b| WHeader::parse(&b)) {
+                        if w.meta.len() >= 12 {
+                            sets.put("header nonce", w.meta[..12].to_vec());
+                        }
+                        sets.put("tag", w.enc.tag.clone());
+                    }
+                }
+            }
+            4 => {
+                if let Out::Ok(u) = call(|| fx.cc.generate_user_secret_key(msk, &ap)) {
+                    if let Some(Ok(w)) = ser(&u).ok().map(|b| WUsk::parse(&b)) {
+                        sets.put("user id", w.id.concat());
+                    }
+                }
+            }
+            5 => {
+                if let Out::Ok(m) = call(|| fx.cc.rekey(msk, &aph)) {
+                    if let Some(Ok(w)) = ser(&m).ok().map(|b| WMpk::parse(&b)) {
+                        // the rotated rights' new public values
+                        for (r, k) in &w.keys {
+                            let mut t = r.clone();
+                            t.push(0xfe);
+                            t.extend_from_slice(&k.h);
+                            sets.sets.entry("published H (per right)").or_default().insert(t);
+                        }
+                    }
+                    *mpk = m;
+                }
+            }
+            6 => {
+                let _ = call(|| fx.cc.refresh_usk(msk, usk, true));
+            }
+            _ => {
+                if let Out::Ok((m, _)) = call(|| fx.cc.setup()) {
+                    if let Some(Ok(w)) = ser(&m).ok().map(|b| crate::wire::WMsk::parse(&b)) {
+                        sets.put("master scalar", w.s.clone());
+                    }
+                }
+            }
+        }
+    };
+    for a in 0..names.len() {
+        for b in 0..names.len() {
+            for _ in 0..3 {
+                do_op(a, sets, &mut msk, &mut usk, &mut mpk);
+                do_op(b, sets, &mut msk, &mut usk, &mut mpk);
+            }
+            st.bump("sequential_pairs");
+            st.shapes.insert(fnv(format!("pair|{}|{}", names[a], names[b]).as_bytes()));
+        }
+    }
+}
+
 pub fn run(tier: &str, _seed: u64, threads: usize) -> Stats {
     let n_total = if tier == "thorough" { 1_600_000 } else { 64_000 };
     // 4 instances, each shared by threads/4 threads (cross-thread and cross-instance freshness)
@@ -243,7 +369,23 @@ pub fn run(tier: &str, _seed: u64, threads: usize) -> Stats {
     for h in hs {
         let _ = h.join();
     }
-    let (sets, mut st) = std::mem::take(&mut *all.lock().unwrap());
+    let (mut sets, mut st) = std::mem::take(&mut *all.lock().unwrap());
+    {
+        let mut seq = Sets::default();
+        sequential_pairs(&mut seq, &mut st);
+        for (k, d) in &seq.dups {
+            if *d > 0 {
+                st.findings.push(Finding {
+                    prop: "C16".into(),
+                    signature: format!("C16:repeated-value-in-back-to-back-calls:{k}"),
+                    detail: format!("{d} repeated {k}s when calling every ordered pair of operations back to back on one instance"),
+                    replay: json!({"monitor": "c16", "phase": "sequential-pairs"}),
+                });
+            }
+        }
+        seq.dups.clear();
+        sets.merge(seq);
+    }
     for (k, d) in &sets.dups {
         if *d > 0 {
             st.findings.push(Finding {
